@@ -236,7 +236,9 @@ fn plain(r: impl Into<String>) -> Out {
 }
 
 fn load_bytes<const N: usize>(ctx: &Ctx, bytes: &[u8]) -> Result<Sodg<N>, ()> {
-    let p = ctx.dir.join("img.bin");
+    // the (possibly truncated) image is written over the very file save() wrote before: a crash during the
+    // non-atomic write leaves its prefix under the same path, next to whatever earlier saves left behind
+    let p = ctx.dir.join("save.bin");
     std::fs::write(&p, bytes).unwrap();
     Sodg::<N>::load(&p).map_err(|_| ())
 }
@@ -323,6 +325,25 @@ fn stateless(t: &[&str]) -> Option<String> {
             Ok(h) => format!("ok {}", hex_out(&h)),
             Err(_) => "err".to_string(),
         },
+        "HEXSET" => {
+            let mut h = hex_in(t[1]);
+            h[usize_in(t[2])] = u8::from_str_radix(t[3], 16).unwrap();
+            hex_out(&h)
+        }
+        "HEXSTRBYTES" => hex_out(&Hex::from_str_bytes(&text_arg(t[1]))),
+        "HEXTOBOOL" => format!("{}", u8::from(hex_in(t[1]).to_bool())),
+        "HEXTOUTF8" => match hex_in(t[1]).to_utf8() {
+            Ok(s) => format!("ok {}", text_out(&s)),
+            Err(_) => "err".to_string(),
+        },
+        "HEXFROMINT" => match t[1] {
+            "4" => hex_out(&Hex::from(t[2].parse::<i32>().unwrap())),
+            "2" => hex_out(&Hex::from(t[2].parse::<i16>().unwrap())),
+            "1" => hex_out(&Hex::from(t[2].parse::<i8>().unwrap())),
+            k => panic!("bad width {k}"),
+        },
+        "HEXFROMF32" => hex_out(&Hex::from(f32::from_bits(u32::from_str_radix(t[1], 16).unwrap()))),
+        "HEXFROMBOOL" => hex_out(&Hex::from(t[1] == "1")),
         "HEXFROMVEC" => hex_out(&Hex::from_vec(unhex(if t[1] == "-" { "" } else { t[1] }))),
         "HEXFROMSLICE" => hex_out(&Hex::from_slice(&unhex(if t[1] == "-" { "" } else { t[1] }))),
         "LABELPARSE" => match Label::from_str(&text_arg(t[1])) {
